@@ -132,7 +132,9 @@ func Copy[E any](dst, src []E) int {
 	if len(src) < n {
 		n = len(src)
 	}
-	if cur == nil || n < 2 || Unwinding() {
+	if cur == nil || n < 2 || Unwinding() || overlaps(dst[:n], src[:n]) {
+		// overlapping operands: the builtin has memmove semantics, which a copy
+		// in two parts would not preserve
 		return copy(dst, src)
 	}
 	// split points are biased to 0 (atomic), and a few interior points
@@ -153,6 +155,20 @@ func Copy[E any](dst, src []E) int {
 		copy(dst[k:n], src[k:n])
 	}
 	return n
+}
+
+// overlaps reports whether two non-empty slices share memory.
+func overlaps[E any](a, b []E) bool {
+	if len(a) == 0 || len(b) == 0 {
+		return false
+	}
+	sz := unsafe.Sizeof(a[0])
+	if sz == 0 {
+		return false
+	}
+	a0 := uintptr(unsafe.Pointer(&a[0]))
+	b0 := uintptr(unsafe.Pointer(&b[0]))
+	return a0 < b0+uintptr(len(b))*sz && b0 < a0+uintptr(len(a))*sz
 }
 
 // ---- Time --------------------------------------------------------------------
